@@ -37,9 +37,9 @@ def run(cx):
     # ---- G: enumerate histories
     maxlen = 3
     hists = []
-    for fam, ml in (("base", maxlen), ("import", maxlen)):
+    for fam, ml in (("base", maxlen), ("import", maxlen), ("risorcall", maxlen)):
         cfg = "CONSTANTS MaxLen = %d\n MaxLate = %d\n Family = \"%s\"\nINIT Init\nNEXT Next\nINVARIANT Emit\nCHECK_DEADLOCK FALSE\n" % (
-            ml, 1 if cx.quick() else 2, fam)
+            ml, 0 if fam == "risorcall" else (1 if cx.quick() else 2), fam)
         rh = cx.tlc("VMRunHist", cfg_text=cfg, workers=4, name="hist_gen_" + fam, timeout=1800, heap="6g")
         cx.tlc_must_pass(rh, "VMRunHist")
         hists += [json.loads(s) for s in rh.tuples("HIST")]
@@ -87,7 +87,8 @@ def run(cx):
             if not matches(o["obs"], e):
                 bad.append((r_["id"], j))
                 break
-        traces.append({"id": r_["id"], "events": res["events"]})
+        if not any(v["api"] == "RisorCall" for v in r_["inv"]):   # risor.Call is two VM runs: its hook events are not one per invocation
+            traces.append({"id": r_["id"], "events": res["events"]})
     # re-execute disagreeing histories (schedule dependent: quorum of 3)
     by_id = {r_["id"]: r_ for r_ in outs}
     reported = 0
